@@ -146,4 +146,14 @@ theorem autophase_spec (A : Arith κ ℂ) (arange : Nat → List κ) {d r : Data
     rw [h.1, h.2.1]
     exact hq
 
+/-- "with a reference slice every trace receives the correction found for that slice": when the recorded angles are the
+    same for every trace (the factor table does not depend on the trace number), the factor an element is multiplied by
+    depends on its position along `dim` only — whatever the other labels are -/
+theorem autophase_reference_slice (A : Arith κ ℂ) (arange : Nat → List κ) {d r : Data κ ℂ} {dim : String}
+    (tbl : Nat → Nat → ℂ) (ref : Nat → ℂ) (href : ∀ j k, tbl j k = ref k)
+    (hd : d.Consistent) (hf : d.unf = none) (hdim : dim ∈ d.dims) (hfi : "fold_index" ∉ d.dims)
+    (hr : d.autophase A arange dim tbl = .ok r) (ℓ : String → Nat) (hℓ : ∀ nm ∈ d.dims, ℓ nm < d.ext nm) :
+    r.getN ℓ = A.mul (d.getN ℓ) (ref (ℓ dim)) := by
+  rw [autophase_spec A arange tbl hd hf hdim hfi hr ℓ hℓ, href]
+
 end Dnp.C13
